@@ -482,6 +482,43 @@ def stream_paths(ctx: Ctx) -> Stream:
 
 
 # ---------------------------------------------------------------------------------------------
+# stream metafile: which file module_meta_factory hashes
+
+
+class _PathAsHash:
+	"""A source loader whose `hash` of a file is the file path itself: the meta then shows which file was looked up."""
+
+	def hash(self, filepath: str) -> str:
+		return filepath
+
+
+META_NAMES = ['shape', 'shape_utils', 'xshape', 'm1', 'm10', 'app.m1', 'app.m10', 'lib.app.m1', 'app.sub.m1', 'a', 'a.a', 'app', 'app.x', 'x', 'other']
+
+
+def stream_metafile(ctx: Ctx) -> Stream:
+	from rogw.tranp.module.types import ModulePath, ModulePaths
+	from rogw.tranp.providers.module import module_meta_factory
+	rng = ctx.sub_rng('metafile')
+	cases = []
+	for _ in range(ctx.scale(300, 3000)):
+		n = rng.randint(0, 5)
+		names = [rng.choice(META_NAMES) for _ in range(n)] if rng.random() < 0.3 else rng.sample(META_NAMES, n)
+		mps = [(nm, rng.choice(['py', 'py', 'pyi', 'h'])) for nm in names]
+		m = rng.choice(names) if names and rng.random() < 0.8 else rng.choice(META_NAMES)
+		try:
+			meta = module_meta_factory(ModulePaths([ModulePath(a, language=b) for a, b in mps]), _PathAsHash())(m)
+			real = f"ok {hx(meta['hash'])}" if meta.get('path') == m else f'wrong-path:{meta}'
+		except Exception as e:  # noqa: BLE001 - the outcome class is the observation
+			real = common.exc_enum(e)
+		kind = 'absent' if m not in names else ('duplicate' if names.count(m) > 1 else ('contained' if any(m != x and m in x for x in names) else 'plain'))
+		cases.append(({'kind': kind}, [f"metafile\t{hxl([f'{a}:{b}' for a, b in mps])}\t{hx(m)}"], [real]))
+	st = correspond_skip('metafile', cases, classify=lambda d, r: [d['kind'], f"{d['kind']}→{r[0].split(' ')[0]}"])
+	st.note = ('the real module_meta_factory(module_paths, sources)(module_path) with a source loader whose hash of a file is its path, on module lists with '
+		'duplicates, absent modules and names contained in one another (prefix / suffix / infix / sub-package)')
+	return st
+
+
+# ---------------------------------------------------------------------------------------------
 # temporary projects
 
 
@@ -1381,7 +1418,13 @@ STATEMENTS = {
 	'force_flag': "`-f` always forces (args.force or config.get('force', False)): run -f transpiles and writes every module, whatever the config file says",
 	'force_config': 'without the flag a run is forced exactly when the config file says force: true',
 	'fixpoint_counterexample': 'two modules, b imports c: run; edit c; a plain run keeps b.h, a forced run rewrites it — the fix-point law is false (header hashes own source only)',
-	'fixpoint_partial': 'for ALL histories of edit/run/run -f/rm-output/set-dirs/set-force from an empty output tree the plain run leaves the contents a forced run leaves, when outputs depend on the own source only, md5 is collision-free, paths are pairwise distinct',
+	'fixpoint_fresh_partial': 'for ALL histories (edit/run/run -f/rm-output/set-dirs/set-force/set-version) and ANY transpiler body whose reads are bounded by deps (import closure): plain run = forced run on every path that is not stale (skipped although a module of deps was edited since the file was written: the known finding)',
+	'fixpoint_fresh': 'corollary: if no skipped module has an edited dependency, the plain run leaves exactly the forced run\'s contents',
+	'fixpoint_partial': 'corollary: with own-source-only outputs and collision-free md5 no path is ever stale, the law holds for all histories',
+	'version_bump': 'after ANY history a release with a version (app or transpiler) not used before makes the plain run the forced run: every module is regenerated',
+	'meta_lookup_exact': 'module_meta_factory on a module list without duplicate paths records the md5 of exactly the listed module\'s own file',
+	'meta_lookup_first': 'with duplicate paths the first entry decides (list.index); an unlisted path raises ValueError',
+	'meta_lookup_substring_counterexample': 'regression example: lookup by substring containment gives shape the entry (hash) of shape_utils listed before it',
 	'fixpoint_shared_path_counterexample': 'fixpoint_partial without pairwise distinct paths is false: two modules at one path make every plain run rewrite the other module (targets are selected up front), unlike a forced run',
 	'paths_iff': 'the decidable NoOverlap check ⇔ every listed module has a path and different list positions have different paths',
 	'paths_counterexample': "prefix rule 'app/:out' + fallback 'out' sends app.x and x to the same file: path injectivity is false in general",
@@ -1390,7 +1433,7 @@ STATEMENTS = {
 
 
 def build_streams(ctx: Ctx) -> list[Stream]:
-	return [stream_strprims(ctx), stream_header(ctx), stream_paths(ctx), stream_runner(ctx)]
+	return [stream_strprims(ctx), stream_header(ctx), stream_paths(ctx), stream_metafile(ctx), stream_runner(ctx)]
 
 
 def build_searches(ctx: Ctx) -> list[SearchResult]:
@@ -1407,7 +1450,7 @@ def run(ctx: Ctx) -> int:
 		statements=STATEMENTS,
 		partial={
 			'proved': 'header read-back (header_slice, header_rt over the real json.dumps printer; json_no_newline, json_ends_with_brace), regeneration decision (regen), '
-				'untouched files (untouched), path-injectivity check (paths_iff, paths_fallback_only), fix-point for own-source-only outputs over all histories (fixpoint_partial), '
+				'untouched files (untouched), path-injectivity check (paths_iff, paths_fallback_only), fix-point over all histories on every non-stale path for any transpiler body (fixpoint_fresh_partial, fixpoint_fresh, corollary fixpoint_partial), version change (version_bump), exact module lookup of the header hash (meta_lookup_exact, meta_lookup_first), '
 				'flag semantics (force_flag, force_config) — all on the model',
 			'proved_false': 'fix-point law in general (fixpoint_counterexample: stale dependants; fixpoint_shared_path_counterexample), '
 				'path injectivity under prefix/glob rules (paths_counterexample), header read-back without trailing line break (header_rt_no_newline_counterexample)',
@@ -1415,7 +1458,9 @@ def run(ctx: Ctx) -> int:
 			'search_only': 'that real outputs depend on imported modules (fix-point search on import graphs); that the law holds on graphs without imports',
 		},
 		assumptions=[
-			'md5 is collision-free on the sources and header texts of a history (hypotheses HashInj / IdInj)',
+			'md5 is collision-free on the header texts of a history (IdInj, in Sound) and — only for fixpoint_partial — on the sources (HashInj)',
+			'version strings are non-empty (an empty Versions.app would be replaced on reading: `app_version or Versions.app`)',
+			'deps m over-approximates the modules whose source the output of m reads (OutDeps); the forced run can transpile the stale modules',
 			"json.loads decodes the headers the runner itself writes (hypothesis LoadsSound; the JSON parser is not modelled)",
 			'glob conditions use only [A-Za-z0-9_/-.*]: other regex metacharacters answer out-of-model',
 			'JSON values without floats / NaN / lone surrogates',
